@@ -147,6 +147,22 @@ def run_held_view(width, length):
             if view.tolist() != want:
                 bad += 1
             del junk
+            # two views, one of them released before the sequence is reused: the survivor must stay valid all the same
+            # (an export COUNT, not a flag)
+            st2 = lightmotif.stripe(text)
+            v1 = memoryview(st2)
+            v2 = memoryview(st2)
+            want2 = v2.tolist()
+            v1.release()
+            try:
+                sm.calculate(st2)
+            except BufferError:
+                pass
+            junk = [bytearray(b"\xff" * 64 * k) for k in range(1, 40)]
+            cases += 1
+            if v2.tolist() != want2:
+                bad += 1
+            del junk
         if bad:
             fail("py_striped_view_held", "%d of 20 views taken before scoring changed contents after scoring (dangling buffer)" % bad, ctor="L=%d,M=%d" % (length, width))
     except BaseException as e:
